@@ -1,5 +1,9 @@
 import MlModel.Lemmas.Piter2Shared
 import MlModel.Lemmas.Piter2Frame
+import MlModel.Lemmas.Piter2Live
+import MlModel.Lemmas.Piter2Final
+import MlModel.Lemmas.Piter2Data
+import MlModel.Lemmas.Piter2DataEq
 /-!
 # C13, the two-level composition `piter(iterator_fn, input_iterators=[i_1 … i_n], max_parallism=P)`
 
@@ -21,13 +25,49 @@ ONE pool, upstream stop of fix 091db8d).  Proved here (all schedules, all sizes)
 * witnesses (`Witness/C13.lean`): with `max_workers ≤ #inputs` a reachable configuration without any enabled step exists
   in which nothing is finished (finding F-C13-pool-small).
 
-NOT proved (full statement, kept visible):
-`theorem C13_two_no_deadlock : PoolOK c0 → Reachable F c0 c → c.quiescent F → c.allDone` with
-`PoolOK c := c.maxWorkers = 0 ∨ (#inputs < c.maxWorkers ∧ (c.fifo ∨ P < c.maxWorkers))` — it needs the no-lost-wake-up
-invariant of BOTH embedded queues plus the cross-queue argument (a parked first-level task waits for a started
-second-level task, a parked second-level task for the caller or for a started first-level task).  The check explores ALL
-schedules of small configurations exhaustively instead (driver op `explore`): stuck configurations exist exactly where
-`PoolOK` fails.
+Round 8 (package C13D2; `Lemmas/Piter2Queue/Inv/Live/Dead/Final.lean`), for BOTH kinds of `iterator_fn` (generator,
+pass-through `fwd`):
+
+* `C13_two_no_lost_wakeup` — the no-lost-wake-up invariant J1 ∧ J2 ∧ K1 ∧ K2 of BOTH queues in every reachable
+  configuration (per-queue views `q1cfg` / `q2cfg`, transferred from the queue LTS).  The view of the output queue
+  shows a second-level task that has seen the END of the input queue with the `_stop_enqueue` arguments `[0]`: a
+  pass-through `iterator_fn` forwards the arguments of the input queue's `StopIteration`, which are EMPTY after an
+  upstream stop, while `Queue.Live` recognises a producer that ran `_stop_enqueue` by its non-empty arguments; the
+  arguments only flow into `returned`, which `Live` does not read (`Queue.stepThread_rets`, `live_returned`);
+* `C13_two_input_lock` — `lock1` is held exactly by the second-level task inside `next(DequeueIterator(Q1))`;
+* `C13_two_upstream_done` — a second-level task ends only after enqueueing on the INPUT queue is done (it saw the end
+  of the input queue, or it / the caller stopped the input queue: fix 091db8d);
+* `C13_two_stuck_all_parked` — in a quiescent configuration (ANY pool) all six queue locks are free and every thread
+  is finished, an unstarted task the pool holds back, waiting for `lock1`, or parked on a condition variable;
+* `C13_two_no_deadlock` — **deadlock freedom under `PoolOK`**: a reachable configuration without enabled step is
+  final (every schedule, capacity, batch size, `num_steps`, failing inputs / `iterator_fn`, FIFO or any-order pool);
+* `C13_two_stuck_no_unstarted` — under `PoolOK` no task is left unstarted in a quiescent configuration;
+* `C13_two_fifo`, `C13_two_output_exactly_once`, `C13_two_second_level_exactly_once_partial`,
+  `C13_two_input_exactly_once`, `C13_two_first_level_exactly_once_partial` — conservation, the part proved (every link of
+  the chain input iterators → first level → input queue → cache / `lock1` → second level → output queue → caller, as an
+  invariant of every reachable configuration; `Lemmas/Piter2Data.lean`): inside EACH queue nothing is duplicated,
+  dropped or reordered (`produced = dequeued ++ q`); every element put into the OUTPUT queue is, exactly once, delivered to the caller / dropped by the caller's final raise or early
+  stop / still queued; what the caller holds ++ dropped ++ queued is exactly what the second-level tasks have put, and
+  what a task has put is — in order, without repetition — part of `iterator_fn`'s outputs for the values the task pulled
+  from the input queue; the input queue's `produced` is exactly what the first-level tasks have put, which is — in
+  order, without repetition — part of the prefix of its input the task has pulled; everything taken out of the input
+  queue is, exactly once, pulled by a second-level task / on its way to one (result of the running `get_batch`, in hand)
+  / in the shared cache / dropped by a raising `get_batch`.
+* `C13_two_second_level_exact`, `C13_two_first_level_exact` (`Lemmas/Piter2DataEq.lean`) — the two inclusions are
+  EQUALITIES while the task's output queue has neither failed nor been stopped: a producer gives up the value in its
+  hand only when `enqueue_done` holds, which — without failure / stop request — cannot happen while a producer is
+  inside `put` (producer counting of `Queue.Live`).
+  Missing for the full statement: the composition of the links into ONE multiset statement about the caller's values
+  (it needs both queues, the cache and every hand EMPTY at the end of a run without failure / early stop, and
+  `pulled = all of the input` for every first-level task).
+
+NOT proved (full statements, kept visible):
+* conservation across both levels: `theorem C13_two_multiset : Reachable F c0 c → c.allDone → delivered outputs of the
+  caller ~ (all input values).flatMap F` (no failure, no early stop) and `… → the caller's StopIteration carries every
+  input generator's return value` (once for a generator `iterator_fn` per task, P times for a pass-through);
+* termination: `theorem C13_two_terminates : ∃ bound, every execution from c0 has at most bound steps` (a variant over
+  both queues' `Phi` + per-task cost).
+  Both are covered by exhaustive exploration of small configurations + schedule replay on the real code + the oracle.
 -/
 namespace MlModel.C13
 open MlModel.Piter2
@@ -157,5 +197,317 @@ example : ∃ c t, Reachable (Piter.evalFn .ident none)
 stuck configurations for such pools) -/
 example : ¬ PoolOK 2 1 { piterInit 1 (some 2) none false [⟨[.val 1, .val 2], 900, []⟩, ⟨[.val 3, .val 4], 901, []⟩] [800]
                           with fifo := true } := by decide
+
+/-! ## Round 8: the no-lost-wake-up invariant of BOTH queues (generator `iterator_fn`) -/
+
+open MlModel.Queue (J1 J2 K1 K2) in
+/-- **no lost wake-up in either queue of the two-level composition** (every schedule, every size, every pool, every
+early-stop position, failing inputs and failing `iterator_fn` included; generator or pass-through `iterator_fn`): in
+every reachable
+configuration the no-lost-wake-up invariant J1 ∧ J2 ∧ K1 ∧ K2 of `Lemmas/QueueLiveDefs.lean` holds for the INPUT queue
+seen through `q1cfg` (producers = first-level tasks, consumer = the second-level task inside `DequeueIterator(Q1).__next__`
+behind `lock1`, stoppers = the upstream stops) AND for the OUTPUT queue seen through `q2cfg` (producers = second-level
+tasks, consumer / stopper = the caller) — transferred from the queue LTS through the two views, not re-proved. -/
+theorem C13_two_no_lost_wakeup {cap1 cap2 bm1 bm2 mw : Nat} {ns : Option Nat} {inputs : List InSpec} {gens : List Nat}
+    {fwd : Bool} {c : Piter2.Cfg} (h : Reachable F (Piter2.init cap1 cap2 bm1 bm2 mw ns fwd inputs gens) c) :
+    (J1 (q1cfg c) ∧ J2 (q1cfg c) ∧ K1 (q1cfg c) ∧ K2 (q1cfg c)) ∧
+    (J1 (q2cfg c) ∧ J2 (q2cfg c) ∧ K1 (q2cfg c) ∧ K2 (q2cfg c)) :=
+  let g := good_reachable (good_init cap1 cap2 bm1 bm2 mw ns fwd inputs gens) h
+  ⟨⟨g.live1.j1, g.live1.j2, g.live1.k1, g.live1.k2⟩, ⟨g.live2.j1, g.live2.j2, g.live2.k1, g.live2.k2⟩⟩
+
+/-- **`lock1` is held exactly by the second-level task inside `next(DequeueIterator(Q1))`**, and every thread is in the
+phase its parts say (`Piter2.TI`): the structural invariant of the two-queue LTS. -/
+theorem C13_two_input_lock {cap1 cap2 bm1 bm2 mw : Nat} {ns : Option Nat} {inputs : List InSpec} {gens : List Nat}
+    {fwd : Bool} {c : Piter2.Cfg} (h : Reachable F (Piter2.init cap1 cap2 bm1 bm2 mw ns fwd inputs gens) c)
+    {tid : Tid} {t : Th} (ht : c.ths[tid]? = some t) :
+    (c.ilock = some tid ↔ (t.role = .l2 ∧ (t.x = .deq ∨ t.x = .lockRel))) ∧ TI t :=
+  let g := good_reachable (good_init cap1 cap2 bm1 bm2 mw ns fwd inputs gens) h
+  ⟨g.inv.ilock tid t ht, g.inv.ti t (List.mem_of_getElem? ht)⟩
+
+/-- **a second-level task ends only after enqueueing on the input queue is done** (every schedule): when a task `Q2.enqueue_from_iterator(iterator_fn(…))` has run to its end — cleanly, by a failure, or
+because the output queue was stopped — the INPUT queue's `enqueue_done` holds: it was exhausted (the task saw its
+`StopIteration`), or it was stopped by `_maybe_stop_upstream` (fix 091db8d).  This is what releases first-level tasks
+parked in `Q1.put`. -/
+theorem C13_two_upstream_done {cap1 cap2 bm1 bm2 mw : Nat} {ns : Option Nat} {fwd ff : Bool} {inputs : List InSpec}
+    {gens : List Nat} {c : Piter2.Cfg} (h : Reachable F (initF cap1 cap2 bm1 bm2 mw ns fwd ff inputs gens) c)
+    {t : Th} (ht : t ∈ c.ths) (hr : t.role = .l2) (hd : t.done = true) : c.s1.enqueueDone = true := by
+  have g := good_reachable (good_initF cap1 cap2 bm1 bm2 mw ns fwd ff inputs gens) h
+  have hd' : t.b.pc = .done ∧ t.x = .idle := by simpa [Th.done, hr] using hd
+  exact g.inv.d1 t ht ⟨hr, .inr (.inr ⟨hd'.2, hd'.1⟩)⟩
+
+open MlModel.Queue (consWakePc prodWakePc) in
+/-- **stuck ⇒ every thread parked, unstarted or finished** (ANY pool, every schedule): in a
+reachable configuration without enabled step the six queue locks are free and
+* the caller is parked in `Q2.get_batch`, or waits in `shutdown()` for unfinished tasks, or has finished;
+* a first-level task is held back by the pool, or parked in `Q1.put`, or finished;
+* a second-level task is held back by the pool, or finished, or parked in `Q2.put`, or waits for `lock1` (held by
+  another task), or is parked in `Q1.get_batch` holding `lock1`.
+Without `PoolOK` this is all that can be said (`Witness/C13.lean`: F-C13-pool-small). -/
+theorem C13_two_stuck_all_parked {cap1 cap2 bm1 bm2 mw : Nat} {ns : Option Nat} {fwd ff : Bool} {inputs : List InSpec}
+    {gens : List Nat} {c : Piter2.Cfg} (hin : inputs ≠ []) (hgen : gens ≠ [])
+    (h : Reachable F (initF cap1 cap2 bm1 bm2 mw ns fwd ff inputs gens) c) (hq : c.quiescent F) :
+    (∀ l, c.s1.owner l = none) ∧ (∀ l, c.s2.owner l = none) ∧
+    ∀ (tid : Tid) (t : Th), c.ths[tid]? = some t →
+      (t.role = .cons → (t.cpc = .iter ∧ consWakePc t.b.pc = true) ∨ (t.cpc = .shutdown ∧ c.tasksDone = false) ∨
+        t.cpc = .fin) ∧
+      (t.role = .l1 → (t.a.pc = .start ∧ c.gate tid = false) ∨ t.a.pc = .done ∨ prodWakePc t.a.pc = true) ∧
+      (t.role = .l2 → (t.b.pc = .start ∧ c.gate tid = false) ∨ (t.b.pc = .done ∧ t.x = .idle) ∨
+        prodWakePc t.b.pc = true ∨ (t.b.pc = .eNext ∧ t.x = .lockAcq ∧ c.ilock ≠ none) ∨
+        (t.b.pc = .eNext ∧ t.x = .deq ∧ consWakePc t.a.pc = true)) := by
+  have hg := good_reachable (good_initF cap1 cap2 bm1 bm2 mw ns fwd ff inputs gens) h
+  have hf := reachable_frame h
+  have hroles : c.ths.map (·.role) =
+      Role.cons :: (List.replicate inputs.length Role.l1 ++ List.replicate gens.length Role.l2) := by
+    rw [hf.roles, initF_roles, map_const_replicate, map_const_replicate]
+  obtain ⟨h1, h2, -, -, -⟩ := roles_facts hroles
+  have ds1 := Queue.dead_shape hg.live1 (prod1_pos hg (h1 (List.length_pos_iff.mpr hin))) (dead_q1 hg hq)
+  have ds2 := Queue.dead_shape hg.live2 (prod2_pos hg (h2 (List.length_pos_iff.mpr hgen))) (dead_q2 hg hq)
+  refine ⟨ds1.free, ds2.free, fun tid t ht => ⟨fun hr => ?_, fun hr => stuck_l1 hg hq ds1 ht hr,
+    fun hr => stuck_l2 hg hq ds1 ds2 ht hr⟩⟩
+  have h0 := (hg.inv.role0 tid t ht).mp hr
+  subst h0
+  exact stuck_cons hg hq ds1 ds2 ht
+
+/-- **No deadlock in the two-level composition under `PoolOK`**: for a generator or a pass-through `iterator_fn`,
+every number of inputs ≥ 1 and of `iterator_fn` tasks ≥ 1, every capacity of both queues (0 = unbounded), every batch size, every `num_steps` (early stop at any position), failing inputs
+and a failing `iterator_fn`, a FIFO or an any-order pool, and EVERY schedule: if the pool is unbounded or has more
+workers than inputs and (unless FIFO) more workers than `iterator_fn` tasks, then a reachable configuration in which no
+thread has an enabled step is FINAL — the caller has passed `shutdown()` and every task of both levels has run to its
+end.  `Witness/C13.lean` shows that the pool condition cannot be dropped. -/
+theorem C13_two_no_deadlock {cap1 cap2 bm1 bm2 mw : Nat} {ns : Option Nat} {fwd ff : Bool} {inputs : List InSpec}
+    {gens : List Nat} {c : Piter2.Cfg} (hin : inputs ≠ []) (hgen : gens ≠ [])
+    (hpool : PoolOK inputs.length gens.length (initF cap1 cap2 bm1 bm2 mw ns fwd ff inputs gens))
+    (h : Reachable F (initF cap1 cap2 bm1 bm2 mw ns fwd ff inputs gens) c) (hq : c.quiescent F) :
+    c.allDone = true :=
+  Piter2.no_deadlock hin hgen hpool h hq
+
+/-- under `PoolOK` **no task is left unstarted in a quiescent configuration**: the pool is never what a two-level
+`piter` waits for in the end -/
+theorem C13_two_stuck_no_unstarted {cap1 cap2 bm1 bm2 mw : Nat} {ns : Option Nat} {fwd ff : Bool} {inputs : List InSpec}
+    {gens : List Nat} {c : Piter2.Cfg} (hin : inputs ≠ []) (hgen : gens ≠ [])
+    (hpool : PoolOK inputs.length gens.length (initF cap1 cap2 bm1 bm2 mw ns fwd ff inputs gens))
+    (h : Reachable F (initF cap1 cap2 bm1 bm2 mw ns fwd ff inputs gens) c) (hq : c.quiescent F)
+    {t : Th} (ht : t ∈ c.ths) : t.started = true := by
+  have hall := C13_two_no_deadlock hin hgen hpool h hq
+  unfold Piter2.Cfg.allDone at hall
+  rw [List.all_eq_true] at hall
+  have hd := hall t ht
+  cases hr : t.role with
+  | cons => simp [Th.started, hr]
+  | l1 =>
+    have : t.a.pc = .done := by simpa [Th.done, hr] using hd
+    simp [Th.started, hr, this]
+  | l2 =>
+    have : t.b.pc = .done ∧ t.x = .idle := by simpa [Th.done, hr] using hd
+    simp [Th.started, hr, this.1]
+
+/-- the pool `piter` creates itself satisfies the hypothesis of `C13_two_no_deadlock` -/
+theorem C13_two_own_pool_ok (bufferSize : Nat) (numSteps : Option Nat) (fwd : Bool) (inputs : List InSpec)
+    (gens : List Nat) (hn : inputs ≠ []) :
+    PoolOK inputs.length gens.length
+      (initF (if bufferSize == 0 then gens.length else bufferSize) bufferSize (if gens.length > 1 then 1 else maxBatch)
+        maxBatch (inputs.length + max gens.length 1) numSteps fwd false inputs gens) := by
+  have hl : 0 < inputs.length := List.length_pos_iff.mpr hn
+  refine .inr ⟨?_, .inr ?_⟩ <;> simp only [initF, Piter2.init] <;> omega
+
+/-- **FIFO conservation inside each queue of the composition** (every schedule): whatever was put into the input queue
+(resp. the output queue) and has not been taken out is in the queue, in put order — `produced = dequeued ++ q` for
+both queues in every reachable configuration. -/
+theorem C13_two_fifo {cap1 cap2 bm1 bm2 mw : Nat} {ns : Option Nat} {fwd ff : Bool} {inputs : List InSpec}
+    {gens : List Nat} {c : Piter2.Cfg} (h : Reachable F (initF cap1 cap2 bm1 bm2 mw ns fwd ff inputs gens) c) :
+    c.s1.produced = c.s1.dequeued ++ c.s1.q ∧ c.s2.produced = c.s2.dequeued ++ c.s2.q :=
+  fifo_reachable h rfl rfl
+
+open MlModel.Queue (seqOf) in
+/-- **exactly-once delivery out of the output queue** (every schedule, early stop and failures included): in every
+reachable configuration the elements the second-level tasks have put into the OUTPUT queue are, as a multiset, exactly:
+what the caller holds (delivered `received`, collected in the running `get_batch`, in hand) ++ what the caller dropped
+(`lost`: the partial batch of a raising `get_batch`, the surplus of the batch that reached `num_steps`) ++ what is still
+queued.  Nothing is delivered twice, nothing disappears silently. -/
+theorem C13_two_output_exactly_once {cap1 cap2 bm1 bm2 mw : Nat} {ns : Option Nat} {fwd ff : Bool}
+    {inputs : List InSpec} {gens : List Nat} {c : Piter2.Cfg}
+    (h : Reachable F (initF cap1 cap2 bm1 bm2 mw ns fwd ff inputs gens) c) {t : Th} (ht : c.ths[0]? = some t) :
+    List.Perm c.s2.produced (seqOf t.b ++ c.s2.lost ++ c.s2.q) := by
+  have hg0 := good_initF cap1 cap2 bm1 bm2 mw ns fwd ff inputs gens
+  have ho : OutInv (initF cap1 cap2 bm1 bm2 mw ns fwd ff inputs gens) := by
+    intro u hu
+    simp only [initF, Piter2.init, List.getElem?_cons_zero, Option.some.injEq] at hu
+    subst hu
+    simp [mkCons, seqOf, Queue.inHand, Queue.inHandPc, initF, Piter2.init]
+  have := out_reachable h hg0 ho t ht
+  rw [(C13_two_fifo h).2]
+  exact this.append_right _
+
+open MlModel.Queue (seqOf) in
+/-- **second level, exactly-once on the producer side and delivery side** (every schedule, both kinds of
+`iterator_fn`, failures and early stop included) — a `_partial` of conservation across both levels (see the file
+header): in every reachable configuration
+* the values the caller holds ++ dropped ++ still queued in the output queue are, as a multiset, exactly the values the
+  second-level tasks have put (`emitted`), and
+* for every second-level task, what it has put is a sublist of `iterator_fn`'s outputs over the values it pulled from
+  the input queue, in pull order: no output is invented, none is put twice, the order is kept. -/
+theorem C13_two_second_level_exactly_once_partial {cap1 cap2 bm1 bm2 mw : Nat} {ns : Option Nat} {fwd ff : Bool}
+    {inputs : List InSpec} {gens : List Nat} {c : Piter2.Cfg}
+    (h : Reachable F (initF cap1 cap2 bm1 bm2 mw ns fwd ff inputs gens) c) {t0 : Th} (ht0 : c.ths[0]? = some t0) :
+    List.Perm ((seqOf t0.b ++ c.s2.lost ++ c.s2.q).map (·.2)) (c.ths.map em2).flatten ∧
+    ∀ t ∈ c.ths, t.role = .l2 → t.emitted.Sublist (t.pulled.flatMap (Fp F)) := by
+  have hg0 := good_initF cap1 cap2 bm1 bm2 mw ns fwd ff inputs gens
+  have h0 : L2Inv F (initF cap1 cap2 bm1 bm2 mw ns fwd ff inputs gens) := by
+    constructor
+    · intro t ht _
+      simp only [initF, Piter2.init, List.mem_cons, List.mem_append, List.mem_map] at ht
+      rcases ht with rfl | ⟨i, _, rfl⟩ | ⟨g, _, rfl⟩ <;> simp [mkCons, mkL1, mkL2, inflight, Queue.putPc]
+    · have : ∀ t ∈ (initF cap1 cap2 bm1 bm2 mw ns fwd ff inputs gens).ths, em2 t = [] := by
+        intro t ht
+        simp only [initF, Piter2.init, List.mem_cons, List.mem_append, List.mem_map] at ht
+        rcases ht with rfl | ⟨i, _, rfl⟩ | ⟨g, _, rfl⟩ <;> simp [em2, mkCons, mkL1, mkL2]
+      have hfl : ((initF cap1 cap2 bm1 bm2 mw ns fwd ff inputs gens).ths.map em2).flatten = [] := by
+        rw [List.flatten_eq_nil_iff]
+        intro l hl
+        obtain ⟨t, ht, rfl⟩ := List.mem_map.mp hl
+        exact this t ht
+      rw [hfl]
+      simp [initF, Piter2.init]
+  have hv := l2inv_reachable h hg0 h0
+  refine ⟨((C13_two_output_exactly_once h ht0).map (·.2)).symm.trans hv.prod, fun t ht hr => ?_⟩
+  have := hv.bal t ht hr
+  rw [List.append_assoc] at this
+  exact (List.sublist_append_left _ _).trans this
+
+/-- **exactly-once hand-over from the input queue to the second level** (every schedule, failures, stops): in every
+reachable configuration the values taken out of the INPUT queue are, as a multiset, exactly: the values the second-level
+tasks have pulled ++ the values on their way (the result of the running `Q1.get_batch`, the value in hand inside it, the
+value `DequeueIterator.__next__` returned and `iterator_fn` has not consumed yet) ++ the shared cache of
+`DequeueIterator(Q1)` ++ what a raising `get_batch` dropped.  No input value reaches two tasks, none disappears. -/
+theorem C13_two_input_exactly_once {cap1 cap2 bm1 bm2 mw : Nat} {ns : Option Nat} {fwd ff : Bool}
+    {inputs : List InSpec} {gens : List Nat} {c : Piter2.Cfg}
+    (h : Reachable F (initF cap1 cap2 bm1 bm2 mw ns fwd ff inputs gens) c) :
+    List.Perm (c.s1.dequeued.map (·.2)) ((c.ths.map own).flatten ++ c.cache.map (·.2) ++ c.s1.lost.map (·.2)) := by
+  have hg0 := good_initF cap1 cap2 bm1 bm2 mw ns fwd ff inputs gens
+  refine in1_reachable h hg0 ?_
+  unfold In1Inv
+  have hfl : ((initF cap1 cap2 bm1 bm2 mw ns fwd ff inputs gens).ths.map own).flatten = [] := by
+    rw [List.flatten_eq_nil_iff]
+    intro l hl
+    obtain ⟨t, ht, rfl⟩ := List.mem_map.mp hl
+    simp only [initF, Piter2.init, List.mem_cons, List.mem_append, List.mem_map] at ht
+    rcases ht with rfl | ⟨i, _, rfl⟩ | ⟨g, _, rfl⟩ <;> simp [own, mkCons, mkL1, mkL2]
+  rw [hfl]
+  simp [initF, Piter2.init]
+
+/-- **first level, exactly-once on the producer side** (every schedule, failing inputs and stops included) — a
+`_partial` of conservation across both levels: in every reachable configuration the values in the INPUT queue's
+`produced` are, as a multiset, exactly what the first-level tasks have put; for every first-level task what it has put
+is a sublist of what it pulled from its input (a pulled value is put at most once, in order; it is dropped only when the
+queue is done), and what it pulled is a PREFIX of the values of its input iterator. -/
+theorem C13_two_first_level_exactly_once_partial {cap1 cap2 bm1 bm2 mw : Nat} {ns : Option Nat} {fwd ff : Bool}
+    {inputs : List InSpec} {gens : List Nat} {c : Piter2.Cfg}
+    (h : Reachable F (initF cap1 cap2 bm1 bm2 mw ns fwd ff inputs gens) c) :
+    List.Perm (c.s1.produced.map (·.2)) (c.ths.map em1).flatten ∧
+    ∀ t ∈ c.ths, t.role = .l1 → t.emitted.Sublist t.pulled ∧ t.pulled <+: valsOf (itemsOf t.a) := by
+  have hg0 := good_initF cap1 cap2 bm1 bm2 mw ns fwd ff inputs gens
+  have h0 : L1Inv (initF cap1 cap2 bm1 bm2 mw ns fwd ff inputs gens) := by
+    have hall : ∀ t ∈ (initF cap1 cap2 bm1 bm2 mw ns fwd ff inputs gens).ths,
+        t.emitted = [] ∧ t.pulled = [] ∧ (t.role = .l1 → t.a.pc = .start) := by
+      intro t ht
+      simp only [initF, Piter2.init, List.mem_cons, List.mem_append, List.mem_map] at ht
+      rcases ht with rfl | ⟨i, _, rfl⟩ | ⟨g, _, rfl⟩ <;> simp [mkCons, mkL1, mkL2]
+    refine ⟨fun t ht hr => ?_, fun t ht hr => ?_, ?_⟩
+    · obtain ⟨e1, e2, e3⟩ := hall t ht
+      simp [e1, e2, inflight1, e3 hr, Queue.putPc]
+    · obtain ⟨e1, e2, e3⟩ := hall t ht
+      simp [e3 hr, e2]
+    · have hfl : ((initF cap1 cap2 bm1 bm2 mw ns fwd ff inputs gens).ths.map em1).flatten = [] := by
+        rw [List.flatten_eq_nil_iff]
+        intro l hl
+        obtain ⟨t, ht, rfl⟩ := List.mem_map.mp hl
+        simp [em1, (hall t ht).1]
+      rw [hfl]
+      simp [initF, Piter2.init]
+  have hv := l1inv_reachable h hg0 h0
+  refine ⟨hv.prod, fun t ht hr => ⟨(List.sublist_append_left _ _).trans (hv.bal t ht hr), ?_⟩⟩
+  have := hv.src t ht hr
+  split at this
+  · rw [this]; exact List.nil_prefix
+  · exact ⟨_, this⟩
+
+/-- **second level, nothing is dropped while the output queue is neither failed nor stopped** (every schedule, both
+kinds of `iterator_fn`): in every reachable configuration in which `Q2._exception` is unset and `Q2` has no stop request,
+for every second-level task: what it has put into the output queue ++ the output in its hand ++ the outputs it still
+holds pending = `iterator_fn`'s outputs over ALL the values it pulled from the input queue, in order — exactly once
+each. -/
+theorem C13_two_second_level_exact {cap1 cap2 bm1 bm2 mw : Nat} {ns : Option Nat} {fwd ff : Bool}
+    {inputs : List InSpec} {gens : List Nat} {c : Piter2.Cfg}
+    (h : Reachable F (initF cap1 cap2 bm1 bm2 mw ns fwd ff inputs gens) c) {t : Th} (ht : t ∈ c.ths)
+    (hr : t.role = .l2) (hexc : c.s2.exc = none) (hstop : c.s2.stopRequested = false) :
+    t.emitted ++ inflight t ++ t.pend = t.pulled.flatMap (Fp F) := by
+  have hg0 := good_initF cap1 cap2 bm1 bm2 mw ns fwd ff inputs gens
+  have h0 : L2Eq F (initF cap1 cap2 bm1 bm2 mw ns fwd ff inputs gens) := by
+    intro u hu _
+    simp only [initF, Piter2.init, List.mem_cons, List.mem_append, List.mem_map] at hu
+    rcases hu with rfl | ⟨i, _, rfl⟩ | ⟨g, _, rfl⟩ <;> simp [mkCons, mkL1, mkL2, inflight, Queue.putPc]
+  exact (l2eq_reachable h hg0 h0 t ht hr).2 ⟨hexc, hstop⟩
+
+/-- **first level, nothing is dropped while the input queue is neither failed nor stopped**: in every reachable
+configuration in which `Q1._exception` is unset and `Q1` has no stop request (no upstream stop yet), for every
+first-level task: what it has put into the input queue ++ the value in its hand = what it pulled from its input. -/
+theorem C13_two_first_level_exact {cap1 cap2 bm1 bm2 mw : Nat} {ns : Option Nat} {fwd ff : Bool}
+    {inputs : List InSpec} {gens : List Nat} {c : Piter2.Cfg}
+    (h : Reachable F (initF cap1 cap2 bm1 bm2 mw ns fwd ff inputs gens) c) {t : Th} (ht : t ∈ c.ths)
+    (hr : t.role = .l1) (hexc : c.s1.exc = none) (hstop : c.s1.stopRequested = false) :
+    t.emitted ++ inflight1 t = t.pulled := by
+  have hg0 := good_initF cap1 cap2 bm1 bm2 mw ns fwd ff inputs gens
+  have h0 : L1Eq (initF cap1 cap2 bm1 bm2 mw ns fwd ff inputs gens) := by
+    intro u hu _ _
+    simp only [initF, Piter2.init, List.mem_cons, List.mem_append, List.mem_map] at hu
+    rcases hu with rfl | ⟨i, _, rfl⟩ | ⟨g, _, rfl⟩ <;> simp [mkCons, mkL1, mkL2, inflight1, Queue.putPc]
+  exact l1eq_reachable h hg0 h0 t ht hr ⟨hexc, hstop⟩
+
+/-- test (by `decide`), non-vacuity of `C13_two_no_deadlock` and `C13_two_stuck_all_parked`: two inputs, one
+`iterator_fn` task, FIFO pool with 3 workers, both queues of capacity 1 — a complete run (100 steps) ends in a
+reachable configuration without enabled step, and it is final -/
+example : ∃ c, Reachable (Piter.evalFn .ident none)
+      (initF 1 1 1 2 3 none false true [⟨[.val 1], 900, []⟩, ⟨[], 901, []⟩] [800]) c ∧
+      c.quiescent (Piter.evalFn .ident none) ∧ c.allDone = true := by
+  have h : ((run (Piter.evalFn .ident none)
+      (initF 1 1 1 2 3 none false true [⟨[.val 1], 900, []⟩, ⟨[], 901, []⟩] [800])
+      (List.replicate 2 0 ++ List.replicate 17 1 ++ [0] ++ List.replicate 16 2 ++ [0] ++ List.replicate 44 3 ++
+        List.replicate 19 0)).map fun c => (enabled (Piter.evalFn .ident none) c == [], c.allDone)) =
+      some (true, true) := by decide +kernel
+  obtain ⟨c, hr, hc⟩ := Option.map_eq_some_iff.mp h
+  simp only [Prod.mk.injEq, beq_iff_eq] at hc
+  exact ⟨c, reachable_run _ _ _ hr, quiescent_of_enabled_nil hc.1, hc.2⟩
+
+example : PoolOK 2 1 (initF 1 1 1 2 3 none false true [⟨[.val 1], 900, []⟩, ⟨[], 901, []⟩] [800]) := by decide
+
+/-- test (by `decide`): the side condition `gens ≠ []` of `C13_two_no_deadlock` is needed — without an `iterator_fn`
+task (unbounded pool) the first-level task fills the input queue and parks, the caller waits for ever (35 steps) -/
+example : ((run (Piter.evalFn .ident none) (initF 1 1 1 2 0 none false false [⟨[.val 1], 900, []⟩] [])
+      (List.replicate 8 0 ++ List.replicate 27 1)).map fun c =>
+        (enabled (Piter.evalFn .ident none) c == [], c.allDone)) = some (true, false) := by decide +kernel
+
+/-- test (by `decide`): the side condition `inputs ≠ []` is needed — without an input the input queue never ends, the
+`iterator_fn` task parks in `Q1.get_batch` (18 steps) -/
+example : ((run (Piter.evalFn .ident none) (initF 1 1 1 2 0 none false false [] [800])
+      (List.replicate 8 0 ++ List.replicate 10 1)).map fun c =>
+        (enabled (Piter.evalFn .ident none) c == [], c.allDone)) = some (true, false) := by decide +kernel
+
+/-- test (by `decide`): the case that needs the normalising view.  Pass-through `iterator_fn`, `num_steps = 0`: the
+second-level task parks in `Q1.get_batch`, the caller stops both queues (upstream stop), the task wakes up with
+`StopIteration()` — NO arguments — and forwards them: it runs `_stop_enqueue()` with empty arguments (`rets = []`) and
+ends; the run (52 steps) ends in a quiescent, final configuration. -/
+example : ∃ c, Reachable (Piter.evalFn .ident none)
+      (initF 1 1 1 2 0 (some 0) true false [⟨[.val 1, .val 2], 900, []⟩] [800]) c ∧
+      c.quiescent (Piter.evalFn .ident none) ∧ c.allDone = true ∧
+      (c.ths[2]?.map fun t => (t.b.rets, t.a.outcome)) = some ([], some (.stop [])) := by
+  have h : ((run (Piter.evalFn .ident none)
+      (initF 1 1 1 2 0 (some 0) true false [⟨[.val 1, .val 2], 900, []⟩] [800])
+      (List.replicate 3 0 ++ List.replicate 10 2 ++ List.replicate 16 0 ++ List.replicate 19 2 ++ List.replicate 3 1 ++
+        [0])).map fun c => (enabled (Piter.evalFn .ident none) c == [], c.allDone,
+          c.ths[2]?.map fun t => (t.b.rets, t.a.outcome))) =
+      some (true, true, some ([], some (.stop []))) := by decide +kernel
+  obtain ⟨c, hr, hc⟩ := Option.map_eq_some_iff.mp h
+  simp only [Prod.mk.injEq, beq_iff_eq] at hc
+  exact ⟨c, reachable_run _ _ _ hr, quiescent_of_enabled_nil hc.1, hc.2.1, hc.2.2⟩
 
 end MlModel.C13
